@@ -40,8 +40,14 @@ def simplify_quantity(q, nd):
     return m.group(1) + _round_number(m.group(2), nd) + m.group(3)
 
 
-def shrink(eng, record, fkey, known, budget=300):
-    """-> (minimised record, violation, number of replays used)"""
+def shrink(eng, record, fkey, known, budget=300, tester=None):
+    """-> (minimised record, violation, number of replays used).  tester(record) -> violation | None replaces the in-process
+    replay (used to minimise with every candidate replayed in an interpreter of its own)."""
+    if tester is not None:
+        def fails_with(_eng, rec, _fkey, _known):       # noqa: F811  (shadows the module-level function on purpose)
+            return tester(rec)
+    else:
+        fails_with = globals()['fails_with']
     used = 0
     best = copy.deepcopy(record)
     v = fails_with(eng, best, fkey, known)
@@ -51,6 +57,12 @@ def shrink(eng, record, fkey, known, budget=300):
     # 0. a second session, if it is not needed
     if best.get('session2'):
         cand = {k: x for k, x in best.items() if k != 'session2'}
+        v2 = fails_with(eng, cand, fkey, known)
+        used += 1
+        if v2 is not None:
+            best, v = cand, v2
+    if best.get('chain'):
+        cand = {k: x for k, x in best.items() if k != 'chain'}
         v2 = fails_with(eng, cand, fkey, known)
         used += 1
         if v2 is not None:
